@@ -8,7 +8,10 @@ import (
 	"errors"
 	"fmt"
 	"net"
+	"os"
+	"path/filepath"
 	"sync"
+	"sync/atomic"
 	"testing"
 	"time"
 
@@ -24,7 +27,7 @@ func TestMain(m *testing.M) { kit.Main(m) }
 var ev = kit.Ev("C19")
 
 func init() {
-	ev.Rule("the endpoint under test (client or server Authenticator, or a plain Stream doing multi-frame SendMessage / ReceiveCompleteMessage / typed reads) talks to an honest cedar peer through a wrapper that counts its Read and Write calls; " +
+	ev.Rule("the endpoint under test (client or server Authenticator, or a plain Stream doing multi-frame typed sends and reads, PutFile / GetFile, PutSecret / GetSecret, StartMessageRead / ReadMessageBytes) talks to an honest cedar peer through a wrapper that counts its Read and Write calls; " +
 		"a baseline run yields the number N of calls of each kind; then for EVERY k in [0,N) and each kind the k-th call blocks forever and, once the wrapper signals the stall, the context is cancelled (variant: a deadline that fires during the stall); " +
 		"further variants: cancelled before the start, cancelled after completion, context.Background(); shapes: no authentication, CLAIMTOBE, FS, TOKEN, SSL (harness certificate), resumed session, three refused handshakes (DENIED for encryption, no common method, SID_NOT_FOUND), plain message exchange; " +
 		"oracle: from the cancellation the call returns within 2 s (re-run twice before it counts) with a non-nil error (the context's own error for plain stream operations) and the connection has been closed; " +
@@ -159,7 +162,7 @@ func runCase(c Case) outcome {
 	pa, pb := kit.NextPorts()
 	cc, sc := kit.NewBufPipe(pa, pb)
 	var endConn, peerConn *kit.BufConn
-	if c.Role == "client" || c.Role == "sender" {
+	if c.Role == "client" || c.Role == "sender" || c.Role == "filesender" || c.Role == "secretsender" {
 		endConn, peerConn = cc, sc
 	} else {
 		endConn, peerConn = sc, cc
@@ -210,6 +213,26 @@ func runCase(c Case) outcome {
 			_ = m.PutBytes(peerCtx, kit.Pattern(payloadSize, 5))
 			_ = m.PutString(peerCtx, "tail")
 			_ = m.FinishMessage(peerCtx)
+			_, _ = ps.ReceiveCompleteMessage(peerCtx)
+		case "filesender": // peer receives the file and acknowledges
+			if _, err := ps.GetFile(peerCtx, scratchFile("peer-got")); err == nil {
+				_ = ps.SendMessage(peerCtx, []byte("ack"))
+			}
+		case "filereceiver": // peer sends the file then waits
+			_, _ = ps.PutFile(peerCtx, sourceFile())
+			_, _ = ps.ReceiveCompleteMessage(peerCtx)
+		case "secretsender": // peer takes three secrets and answers with one
+			for i := 0; i < 3; i++ {
+				if _, err := ps.GetSecret(peerCtx); err != nil {
+					return
+				}
+			}
+			_ = ps.PutSecret(peerCtx, "reply-secret")
+		case "bytesreader": // peer sends one message as four partial frames and a final one, then waits
+			for i := 0; i < 4; i++ {
+				_ = ps.SendPartialMessage(peerCtx, kit.Pattern(3000, uint32(i)))
+			}
+			_ = ps.SendMessage(peerCtx, kit.Pattern(500, 9))
 			_, _ = ps.ReceiveCompleteMessage(peerCtx)
 		}
 	}()
@@ -283,6 +306,52 @@ func runCase(c Case) outcome {
 				err = es.SendMessage(ctx, []byte("done"))
 			}
 			o.err = err
+		case "filesender":
+			_, err := es.PutFile(ctx, sourceFile())
+			if err == nil {
+				var ack []byte
+				ack, err = es.ReceiveCompleteMessage(ctx)
+				o.payloadOK = string(ack) == "ack"
+			}
+			o.err = err
+		case "filereceiver":
+			n, err := es.GetFile(ctx, scratchFile("end-got"))
+			o.payloadOK = n == fileSize
+			if err == nil {
+				err = es.SendMessage(ctx, []byte("done"))
+			}
+			o.err = err
+		case "secretsender":
+			var err error
+			for i := 0; i < 3 && err == nil; i++ {
+				err = es.PutSecret(ctx, fmt.Sprintf("secret-%d", i))
+			}
+			if err == nil {
+				var r string
+				r, err = es.GetSecret(ctx)
+				o.payloadOK = r == "reply-secret"
+			}
+			o.err = err
+		case "bytesreader":
+			err := es.StartMessageRead(ctx)
+			total := 0
+			buf := make([]byte, 1024)
+			for err == nil && total < 12500 {
+				var n int
+				n, err = es.ReadMessageBytes(ctx, buf)
+				total += n
+				if n == 0 && err == nil {
+					err = fmt.Errorf("ReadMessageBytes returned nothing")
+				}
+			}
+			if err == nil {
+				err = es.EndMessageRead()
+			}
+			o.payloadOK = total == 12500
+			if err == nil {
+				err = es.SendMessage(ctx, []byte("done"))
+			}
+			o.err = err
 		}
 		o.ok = o.err == nil
 	}()
@@ -343,7 +412,39 @@ func stallVariant(v string) bool {
 	return false
 }
 
-func plain(role string) bool { return role == "sender" || role == "receiver" }
+func plain(role string) bool {
+	switch role {
+	case "sender", "receiver", "filesender", "filereceiver", "secretsender", "bytesreader":
+		return true
+	}
+	return false
+}
+
+const fileSize = 150000
+
+var (
+	srcOnce sync.Once
+	srcPath string
+	scratchN int64
+)
+
+// sourceFile is a 150000-byte file the file-transfer roles send.
+func sourceFile() string {
+	srcOnce.Do(func() {
+		f, err := os.CreateTemp("", "c19src")
+		if err != nil {
+			panic(err)
+		}
+		_, _ = f.Write(kit.Pattern(fileSize, 77))
+		_ = f.Close()
+		srcPath = f.Name()
+	})
+	return srcPath
+}
+
+func scratchFile(tag string) string {
+	return filepath.Join(os.TempDir(), fmt.Sprintf("c19-%s-%d-%d", tag, os.Getpid(), atomic.AddInt64(&scratchN, 1)%64))
+}
 
 func judge(c Case, o outcome, base outcome) string {
 	if o.err != nil && !o.returned && o.reads == 0 && o.writes == 0 && c.Variant != "before" {
@@ -407,7 +508,7 @@ func TestC19Stalls(t *testing.T) {
 	for _, s := range shapes {
 		pairs = append(pairs, sr{s, "client"}, sr{s, "server"})
 	}
-	pairs = append(pairs, sr{"plain", "sender"}, sr{"plain", "receiver"})
+	pairs = append(pairs, sr{"plain", "sender"}, sr{"plain", "receiver"}, sr{"plain", "filesender"}, sr{"plain", "filereceiver"}, sr{"plain", "secretsender"}, sr{"plain", "bytesreader"})
 	for _, p := range pairs {
 		base := runCase(Case{Shape: p.shape, Role: p.role, Variant: "baseline"})
 		ev.Case("baseline:"+p.shape+"/"+p.role, "")
@@ -481,7 +582,7 @@ func TestC19Stalls(t *testing.T) {
 		}(j)
 	}
 	wg.Wait()
-	ev.Exhaustive("every Read index and every Write index of the baseline run of each (shape, role): 9 handshake shapes (6 completing, 3 ending in a refusal: DENIED for encryption, no common method, SID_NOT_FOUND) x {client, server} + plain {sender, receiver}; at every index: a cancel, an expiring deadline, an explicit cancel of a context that carries a far deadline, and a cancel of the parent of a deadline- and value-carrying child")
+	ev.Exhaustive("every Read index and every Write index of the baseline run of each (shape, role): 9 handshake shapes (6 completing, 3 ending in a refusal: DENIED for encryption, no common method, SID_NOT_FOUND) x {client, server} + plain {typed sender, typed receiver, PutFile, GetFile, PutSecret/GetSecret, StartMessageRead/ReadMessageBytes}; at every index: a cancel, an expiring deadline, an explicit cancel of a context that carries a far deadline, and a cancel of the parent of a deadline- and value-carrying child")
 }
 
 func TestC19Replay(t *testing.T) {
